@@ -235,6 +235,27 @@ func writerRounding(m *afm.Metrics) *afm.Metrics {
 	return &c
 }
 
+// afmrwLine emits the model-comparison line for one AFM text: what Read followed by Write gives
+func afmrwLine(o *suiteOut, text []byte) {
+	if len(text) > 60000 {
+		return
+	}
+	line := "afmrw " + hx(text)
+	res := "error"
+	m, err, pan := readMetrics(text)
+	if pan != "" {
+		res = "panic"
+	} else if err == nil {
+		d, err2, pan2 := writeMetrics(m)
+		if err2 != nil || pan2 != "" {
+			res = "write-error"
+		} else {
+			res = "ok " + hx(d)
+		}
+	}
+	o.emit(line, res, res != "error")
+}
+
 func afmCase(o *suiteOut, line string) {
 	f := strings.Split(line, " ")
 	var seed uint64
@@ -248,6 +269,7 @@ func afmCase(o *suiteOut, line string) {
 			o.fail("C15", "writing metrics succeeds", line, "nil", fmt.Sprint(err, pan))
 			break
 		}
+		afmrwLine(o, data)
 		back, err, pan := readMetrics(data)
 		if err != nil || pan != "" {
 			o.fail("C15", "reading what was written succeeds", line, "nil", fmt.Sprint(err, pan))
@@ -258,7 +280,9 @@ func afmCase(o *suiteOut, line string) {
 		}
 	case "layout":
 		m := randMetrics(r)
-		back, err, pan := readMetrics(renderAFM(r, m))
+		laid := renderAFM(r, m)
+		afmrwLine(o, laid)
+		back, err, pan := readMetrics(laid)
 		if pan != "" {
 			o.fail("C01", "no panic in the AFM reader", line, "error value", pan)
 			break
@@ -269,6 +293,27 @@ func afmCase(o *suiteOut, line string) {
 		}
 		if d := compareMetrics(m, back, true); d != "" {
 			o.fail("C15", "the reader understands the same data with different spacing, field order and line ends", line, "equal", d)
+		}
+	case "longline":
+		// an accepted file whose written form has a line beyond bufio.Scanner's 64 kB token limit
+		var sb strings.Builder
+		sb.WriteString("StartFontMetrics 4.1\nFontName T\nStartCharMetrics 1\nC 1;N a;")
+		for i := 0; i < 8000; i++ {
+			const a36 = "abcdefghijklmnopqrstuvwxyz0123456789"
+			fmt.Fprintf(&sb, "L %c%c%c d;", a36[i/1296%36], a36[i/36%36], a36[i%36]) // 8000 distinct three-letter names
+		}
+		sb.WriteString("\nEndCharMetrics\nEndFontMetrics\n")
+		m1, err, _ := readMetrics([]byte(sb.String()))
+		if err != nil {
+			break // not accepted: nothing to preserve
+		}
+		d1, err, pan := writeMetrics(m1)
+		if err != nil || pan != "" {
+			o.fail("C15", "metrics that were read can be written", line, "nil", fmt.Sprint(err, pan))
+			break
+		}
+		if _, err, _ := readMetrics(d1); err != nil {
+			o.fail("C15", "the written metrics can be re-read (line longer than 64 kB)", line, "nil", err.Error())
 		}
 	case "closure":
 		m := randMetrics(r)
@@ -284,6 +329,7 @@ func afmCase(o *suiteOut, line string) {
 		if r.chance(1, 3) {
 			text = append(text, []byte("C 300 ; WX 100 ; N big ; B 0 0 NaN 7.5 ;\nGarbage line\n")...)
 		}
+		afmrwLine(o, text)
 		m1, err, pan := readMetrics(text)
 		if pan != "" {
 			o.fail("C01", "no panic in the AFM reader", line, "error value", pan)
@@ -320,6 +366,7 @@ func afmCase(o *suiteOut, line string) {
 }
 
 func suiteAFM(o *suiteOut, r *rng, tier string, n int) {
+	afmCase(o, "afm 0 longline")
 	for _, l := range corpusLines("afm") {
 		afmCase(o, l)
 		o.count("corpus cases")
@@ -341,4 +388,5 @@ func suiteAFM(o *suiteOut, r *rng, tier string, n int) {
 func init() {
 	suites["afm"] = suiteAFM
 	replayers["afm"] = afmCase
+	replayers["afmrw"] = func(o *suiteOut, line string) { afmrwLine(o, unhx(strings.Split(line, " ")[1])) }
 }
